@@ -97,6 +97,21 @@ func kindOf(v interface{}) string {
 func recOf(r sourceaddrs.RemoteSource) *aRec {
 	u := r.Package().URL()
 	q := u.Query()
+	if strings.Contains(u.RawQuery, ";") {
+		// url.Values leaves out every pair that contains ';'; a transport that splits at '&' and ';' sees them all,
+		// so the arguments are read from the text of the query instead
+		q = url.Values{}
+		for _, part := range strings.FieldsFunc(u.RawQuery, func(r rune) bool { return r == '&' || r == ';' }) {
+			k, v, _ := strings.Cut(part, "=")
+			if k1, err := url.QueryUnescape(k); err == nil {
+				k = k1
+			}
+			if v1, err := url.QueryUnescape(v); err == nil {
+				v = v1
+			}
+			q[k] = append(q[k], v)
+		}
+	}
 	rec := &aRec{Kind: "remote", Type: r.Package().SourceType(), Scheme: u.Scheme, User: u.User != nil,
 		QKeys: []string{}, QMulti: []string{}, Archive: q.Get("archive"), Sub: []string{}}
 	for k, vs := range q {
